@@ -163,7 +163,15 @@ void supla_esp_gpio_btn_irq_lock(uint8 lock) {
   ETS_GPIO_INTR_ENABLE();
 }
 
+#ifdef SUPLA_VERIF_HOOKS
+// Observation hook for the /verif harness (no effect on behaviour).
+void supla_verif_hook_relay_hi(int port, unsigned char hi);
+#endif /*SUPLA_VERIF_HOOKS*/
+
 char supla_esp_gpio_relay_hi(int port, unsigned char hi) {
+#ifdef SUPLA_VERIF_HOOKS
+  supla_verif_hook_relay_hi(port, hi);
+#endif /*SUPLA_VERIF_HOOKS*/
   unsigned int t = system_get_time();
   int a;
   char result = 0;
